@@ -2,15 +2,22 @@ import S3V.Props.C19
 /-!
 # C19 — kernel-checked witnesses of what is not all-or-nothing (outside the pass/fail gate)
 
-Each is replayed on the real code by the correspondence run (`corpus/fswrite.txt`, `known_findings.d/fswrite.json`).
+One theorem per finding class of `known_findings.d/fswrite.json`; the class names are position-specific
+(`<what>:<fault kind / position>`), so each open finding covers exactly the fault shown here. Each is replayed on
+the real code by the correspondence run (`corpus/fswrite.txt`).
 -/
 namespace S3V.Findings.C19
 open S3V S3V.FsWrite S3V.C19
 
-/-- F-fswrite-2: the request future dropped after `File::create(tmp)` was issued and before the `FileWriter`
-    exists: the temporary file stays -/
-theorem tmp_leftover_when_dropped_at_create :
+/-- `tmp-leftover:drop-at-create` (F-fswrite-2): the request future dropped after `File::create(tmp)` was issued
+    and before the `FileWriter` exists (position 1): the temporary file stays -/
+theorem tmp_leftover_drop_at_create :
     (dropAfter 1 (putObjectProg {}) (initSt none .absent .absent)).tmp = true := by decide
+
+/-- … and at NO other position, whatever `done()` does (this is `C19_write_all_or_nothing_partial`); e.g. dropped
+    inside `done()` between `create_dir_all` and the rename: -/
+theorem no_tmp_leftover_drop_inside_done :
+    (dropAfter 6 (putObjectProg { frames := [.ok [1]] }) (initSt none .absent .absent)).tmp = false := by decide
 
 /-- hence the unrestricted statement is false -/
 theorem write_all_or_nothing_full_is_false : ¬ C19_write_all_or_nothing_full := by
@@ -19,32 +26,59 @@ theorem write_all_or_nothing_full_is_false : ¬ C19_write_all_or_nothing_full :=
   revert this
   decide
 
-/-- F-fswrite-3: the metadata write fails after the rename: `InternalError`, but the content is the new one and
-    the checksum record still the old one -/
-theorem error_after_rename :
+/-- `error-after-rename:sidefile-write-fails` (F-fswrite-3): the metadata write fails after the rename:
+    `InternalError`, but the content is the new one and the checksum record still the old one -/
+theorem error_after_rename_sidefile_write_fails :
     run (putObjectProg { frames := [.ok [1]], hasMeta := true, metaFails := true }) (initSt (some [0]) .old .old) =
       (.internalError, { dest := some [1], tmp := false, owned := false, acc := [1], mdata := .old, info := .old,
-                         uploadRec := true, partsGone := 0, pulled := 1 }) := by decide
+                         uploadRec := true, partsGone := 0, pulled := 1, dirs := true }) := by decide
 
-/-- F-fswrite-4: dropped right after the rename (position 7 with one frame): new content, old side files -/
-theorem sidefiles_lag_after_rename :
+/-- `sidefiles-lag:drop-after-rename` (F-fswrite-4): dropped right after the rename (position 7 with one frame):
+    new content, old side files -/
+theorem sidefiles_lag_drop_after_rename :
     (dropAfter 7 (putObjectProg { frames := [.ok [1]], hasMeta := true }) (initSt (some [0]) .old .old)).dest = some [1] ∧
     (dropAfter 7 (putObjectProg { frames := [.ok [1]], hasMeta := true }) (initSt (some [0]) .old .old)).mdata = .old ∧
     (dropAfter 7 (putObjectProg { frames := [.ok [1]], hasMeta := true }) (initSt (some [0]) .old .old)).info = .old := by
   decide
 
-/-- F-fswrite-5: `complete_multipart_upload` with a missing part: `InternalError`, content unchanged, but the
-    metadata already replaced and the upload record gone -/
-theorem complete_metadata_early :
+/-- `complete-metadata-early:part-missing` (F-fswrite-5): `complete_multipart_upload` with a missing part:
+    `InternalError`, content unchanged, but the metadata already replaced and the upload record gone -/
+theorem complete_metadata_early_part_missing :
     run (completeProg { parts := [.missing], hasMeta := true }) (initSt (some [0]) .old .old) =
       (.internalError, { dest := some [0], tmp := false, owned := false, acc := [], mdata := .new, info := .old,
-                         uploadRec := false, partsGone := 0, pulled := 0 }) := by decide
+                         uploadRec := false, partsGone := 0, pulled := 0, dirs := false }) := by decide
 
-/-- before 3229285 the comparison came after `done()`: in the model, the program with `check` after `rename` -/
+/-- `complete-metadata-early:part-too-small` (F-fswrite-6) -/
+theorem complete_metadata_early_part_too_small :
+    (run (completeProg { parts := [.present [1] false, .present [2] true], hasMeta := true })
+      (initSt (some [0]) .old .old)).1 = .entityTooSmall ∧
+    (run (completeProg { parts := [.present [1] false, .present [2] true], hasMeta := true })
+      (initSt (some [0]) .old .old)).2.dest = some [0] ∧
+    (run (completeProg { parts := [.present [1] false, .present [2] true], hasMeta := true })
+      (initSt (some [0]) .old .old)).2.mdata = .new := by decide
+
+/-- `complete-metadata-early:dest-is-dir` / `:parent-is-file` (F-fswrite-7, -8): `done()` fails -/
+theorem complete_metadata_early_done_fails :
+    (run (completeProg { parts := [.present [1] true], hasMeta := true, renameFails := true })
+      (initSt none .old .old)).2.mdata = .new ∧
+    (run (completeProg { parts := [.present [1] true], hasMeta := true, mkdirsFails := true })
+      (initSt none .old .old)).2.mdata = .new ∧
+    (run (completeProg { parts := [.present [1] true], hasMeta := true, mkdirsFails := true })
+      (initSt none .old .old)).2.tmp = false := by decide
+
+/-- `complete-metadata-early:drop-before-rename` (F-fswrite-9): abandoned after the metadata was moved -/
+theorem complete_metadata_early_drop_before_rename :
+    (dropAfter 4 (completeProg { parts := [.present [1] true], hasMeta := true }) (initSt (some [0]) .old .old)).dest
+      = some [0] ∧
+    (dropAfter 4 (completeProg { parts := [.present [1] true], hasMeta := true }) (initSt (some [0]) .old .old)).mdata
+      = .new := by decide
+
+/-- before 3229285 the comparison came after `done()`: in the model, the program with `check` after `rename`
+    (`error-after-rename:checksum`, F-fswrite-1, fixed) -/
 theorem old_order_replaced_before_baddigest :
-    (run [.create, .adopt, .frame (.ok [1]), .flush, .mkdirs, .rename false, .check false]
+    (run [.create, .adopt, .frame (.ok [1]), .flush, .mkdirs false, .rename false, .check false]
       (initSt (some [0]) .old .old)).1 = .badDigest ∧
-    (run [.create, .adopt, .frame (.ok [1]), .flush, .mkdirs, .rename false, .check false]
+    (run [.create, .adopt, .frame (.ok [1]), .flush, .mkdirs false, .rename false, .check false]
       (initSt (some [0]) .old .old)).2.dest = some [1] := by decide
 
 end S3V.Findings.C19
